@@ -31,3 +31,16 @@ Print Assumptions C16_rejects.
 Theorem C16_attrs_gate : forall fmt attrs, attrs_ok fmt attrs = true -> AttrsOK fmt attrs.
 Proof. exact attrs_ok_spec. Qed.
 Print Assumptions C16_attrs_gate.
+
+(* the boolean applied by the correspondence to every request for which the IMPLEMENTATION produced an
+   envelope is implied by ValidReq, and the model's own successes always pass it *)
+From NCG Require Import Run.SignCase Proofs.Reflect.
+Theorem C16_checker_complete : forall sf ss q, (q_fmt q = 0 \/ q_fmt q = 1)%Z ->
+  ValidReq sf ss q -> valid_req_b sf ss q = true.
+Proof. exact valid_req_b_complete. Qed.
+Print Assumptions C16_checker_complete.
+
+Theorem C16_model_success_passes_checker : forall sf ss q h, (q_fmt q = 0 \/ q_fmt q = 1)%Z ->
+  sign sf ss q = SOk h -> valid_req_b sf ss q = true.
+Proof. exact sign_ok_valid_req_b. Qed.
+Print Assumptions C16_model_success_passes_checker.
